@@ -7,11 +7,12 @@ CLAIMS = {}
 for f in sorted(os.listdir(os.path.join(V, 'harness', 'claims'))):
     if f.endswith('.json'):
         CLAIMS[f[:-5]] = json.load(open(os.path.join(V, 'harness', 'claims', f)))
+ADOPTED = set(open(os.path.join(V, 'harness', 'adopted.txt')).read().split())
 checks, na = [], []
 for p in props:
     pid = p['id']
     c = CLAIMS.get(pid)
-    if c and os.path.exists(os.path.join(V, 'harness', pid.lower() + '.py')):
+    if c and pid in ADOPTED and os.path.exists(os.path.join(V, 'harness', pid.lower() + '.py')):
         checks.append({
             'property_id': pid,
             'quick_cmd': f'./check {pid} quick',
